@@ -249,7 +249,9 @@ def deserialize_multifield_wrapper(
     return deserialized
 
 
-def deserialize_map(map_field, source_val, name, camel_case_convert=False):
+def deserialize_map(
+    map_field, source_val, name, camel_case_convert=False, keep_undefined=True
+):
     if not isinstance(source_val, dict):
         raise TypeError(f"{name}: Got {wrap_val(source_val)}; Expected a dictionary")
     if map_field.items:
@@ -262,7 +264,11 @@ def deserialize_map(map_field, source_val, name, camel_case_convert=False):
 
         res[
             deserialize_single_field(
-                key_field, key, name, camel_case_convert=camel_case_convert
+                key_field,
+                key,
+                name,
+                camel_case_convert=camel_case_convert,
+                keep_undefined=keep_undefined,
             )
         ] = deserialize_single_field(
             value_field,
@@ -270,6 +276,7 @@ def deserialize_map(map_field, source_val, name, camel_case_convert=False):
             name,
             camel_case_convert=camel_case_convert,
             ignore_none=ignore_none,
+            keep_undefined=keep_undefined,
         )
     return res
 
@@ -387,7 +394,11 @@ def deserialize_single_field(  # pylint: disable=too-many-branches
             raise ValueError(f"{name}: Got {wrap_val(source_val)}; {str(e)}") from e
     elif isinstance(field, Map):
         value = deserialize_map(
-            field, source_val, name, camel_case_convert=camel_case_convert
+            field,
+            source_val,
+            name,
+            camel_case_convert=camel_case_convert,
+            keep_undefined=keep_undefined,
         )
     elif isinstance(field, SerializableField):
         value = field.deserialize(source_val)
